@@ -25,7 +25,8 @@ ANCHORS = ["ResultQuantifier._evaluate__", "Exactly.assert_satisfaction", "AtMos
 def plan(tier):
     return {"cases": 0 if tier == "quick" else 6000, "shards": 16, "case_timeout": 10,
             "shard_timeout": 600, "min_nontrivial": 500,
-            "min_counters": {"yield_events": 1000, "contract_evals": 1000, "construct_rejections": 10}}
+            "min_counters": {"yield_events": 1000, "contract_evals": 1000, "construct_rejections": 10,
+                             "falsy_solutions": 300}}
 
 
 def setup(ctx):
@@ -50,8 +51,10 @@ def exhaustive(tier, ctx):
     for n in range(0, N + 1):
         for c in constraints_for(n):
             for sel in ("entity", "set_of"):
-                for dom in ("list", "gen", "domainless"):
+                for dom in ("list", "gen", "domainless", "scalar"):
                     for filt in (False, True):
+                        if dom == "scalar" and not filt:
+                            continue        # the scalar form always carries a condition that binds the variable
                         yield {"n": n, "c": list(c), "sel": sel, "dom": dom, "filt": filt, "pad": 2 if filt else 0}
     # invalid constructions
     for k in (-1, -2, -7):
@@ -74,7 +77,7 @@ def gen(rng, tier, ctx):
         c = [kind]
     else:
         c = [kind, around()]
-    return {"n": n, "c": c, "sel": rng.choice(["entity", "set_of"]), "dom": rng.choice(["list", "gen", "domainless"]),
+    return {"n": n, "c": c, "sel": rng.choice(["entity", "set_of"]), "dom": rng.choice(["list", "gen", "domainless", "scalar"]),
             "filt": rng.random() < 0.5, "pad": rng.randint(0, 5)}
 
 
@@ -157,15 +160,28 @@ def run(spec, ctx):
     flags = [1] * n + ([0] * pad if filt else [])
     # deterministic interleave
     flags.sort(key=lambda f, _i=itertools.count(): (next(_i) * 7) % (len(flags) or 1))
-    if spec["dom"] == "domainless":
+    scalar = spec["dom"] == "scalar"
+    if scalar:
+        # solutions are plain values, the first ones falsy (0, "", (), 0.0 would equal 0): a solution is a solution
+        # whatever its truth value; the condition binds the variable before it is selected
+        pool = [0, "", (), "a", 1, 2.5, "b", (1,)] + list(range(2, 60))
+        sols = pool[:n]
+        vals = list(sols) + [-7] * pad
+        vals.sort(key=lambda f, _i=itertools.count(): (next(_i) * 7) % (len(vals) or 1))
+        x = let(object, list(vals), name="x")
+        objs = vals
+        conds = [x != -7]
+        filt = True
+    elif spec["dom"] == "domainless":
         m.fresh_symbol_graph()
         objs = [m.S0(a=f, name=f"s{i}") for i, f in enumerate(flags)]
         x = let(m.S0, None, name="x")
     else:
         objs = [m.P(a=f, name=f"p{i}") for i, f in enumerate(flags)]
         x = let(m.P, (iter(list(objs)) if spec["dom"] == "gen" else list(objs)), name="x")
-    sols = [o for o in objs if o.a == 1] if filt else list(objs)
-    conds = [x.a == 1] if filt else []
+    if not scalar:
+        sols = [o for o in objs if o.a == 1] if filt else list(objs)
+        conds = [x.a == 1] if filt else []
     desc = entity(x, *conds) if spec["sel"] == "entity" else set_of([x], *conds)
     before = sum(contracts.EVALS.values())
     lo_y, hi_y, exc = expected(len(sols), c)
@@ -206,13 +222,19 @@ def run(spec, ctx):
                 problems.append(f"the(): expected exactly {exc}, got {rname}")
         if len(vals) > hi_y:
             problems.append(f"yielded {len(vals)} > allowed {hi_y}")
-    ids = [id(v) for v in vals]
+    ident = (lambda v: (type(v).__name__, repr(v))) if scalar else id
+    ids = [ident(v) for v in vals]
     if len(set(ids)) != len(ids):
         problems.append("duplicate solution yielded")
-    if not set(ids) <= {id(s) for s in sols}:
+    if not set(ids) <= {ident(s) for s in sols}:
         problems.append("yielded a non-solution")
-    if exc is None and c[0] != "the" and set(ids) != {id(s) for s in sols}:
+    if exc is None and c[0] != "the" and set(ids) != {ident(s) for s in sols}:
         problems.append("not all solutions yielded")
+    if exc is None and c[0] == "the" and ids != [ident(sols[0])]:
+        problems.append(f"the() returned {vals!r}, the only solution is {sols[0]!r}")
+    if scalar:
+        C["scalar_cases"] += 1
+        C["falsy_solutions"] += sum(1 for s_ in sols if not s_)
     C["exc:" + str(rname)] += 1
     C["cases:" + c[0]] += 1
     shape = f"{len(sols)}|{c}|{spec['sel']}|{spec['dom']}|{filt}"
